@@ -33,6 +33,89 @@ def project(src, dst):
             out.write(json.dumps(e, separators=(",", ":")) + "\n")
 
 
+def frontends_pass(out, tier):
+    """BuildFrontEnds.tla: `sudachi build/ubuild` and sudachipy.build_*_dic write what the library writes"""
+    import hashlib
+    import shutil
+    import struct
+    import subprocess
+    import sys
+    from . import c19
+    world, cli = c19.build_bindings()
+    d = os.path.join(C.WORK, "c05fe")
+    if os.path.exists(d):
+        shutil.rmtree(d)
+    os.makedirs(d)
+    n = 14 if tier == "quick" else 150
+    C.run_vh(["c05-sources", d, "--seed", C.seed(), "--n", n])
+    jobs = json.load(open(os.path.join(d, "jobs.json")))
+    lib = json.loads(C.run_vh(["c05-libbuild", os.path.join(d, "jobs.json"), os.path.join(c19.PYPKG, "sudachipy", "resources")]).stdout.strip().splitlines()[-1])
+
+    def read(path):
+        """(version, description, sha256 of the body) of a written dictionary"""
+        b = open(path, "rb").read()
+        if len(b) < 272:
+            return 0, "", "short file"
+        ver = struct.unpack("<Q", b[:8])[0]
+        desc = b[16:272].split(b"\0")[0].decode("utf-8", "replace")
+        return ver % 1000003, desc, hashlib.sha256(b[272:]).hexdigest()     # TLC integers are 32 bit: the version is compared modulo a prime
+
+    events = []
+    libres = {(e["job"], e["kind"]): e for e in lib}
+    for e in lib:
+        ver, desc, body = read(e["file"]) if e["res"] == "ok" else (0, "", "")
+        events.append({"ev": "libbuild", "run": e["job"], "job": f'{e["job"]}/{e["kind"]}', "res": e["res"], "body": body, "version": ver})
+    # the command-line front end
+    for j in jobs:
+        jd = j["dir"]
+        argv = [cli, "build", "-m", j["matrix"], "-o", os.path.join(jd, "cli_system.dic")] + (["-d", j["desc"]] if j["desc"] else []) + j["lex"]
+        p = subprocess.run(argv, stdout=subprocess.PIPE, stderr=subprocess.PIPE, timeout=300, env=dict(os.environ, RUST_BACKTRACE="0"))
+        ok = p.returncode == 0
+        ver, desc, body = read(os.path.join(jd, "cli_system.dic")) if ok else (0, "", "")
+        events.append({"ev": "fe_build", "run": j["job"], "job": f'{j["job"]}/system', "fe": "cli", "res": "ok" if ok else "err", "body": body, "version": ver, "desc": j["desc"], "hdesc": desc, "exit": p.returncode})
+        if (j["job"], "user") in libres:
+            argv = [cli, "ubuild", "-s", os.path.join(jd, "lib_system.dic"), "-o", os.path.join(jd, "cli_user.dic")] + (["-d", j["desc"]] if j["desc"] else []) + [j["user"]]
+            p = subprocess.run(argv, stdout=subprocess.PIPE, stderr=subprocess.PIPE, timeout=300, env=dict(os.environ, RUST_BACKTRACE="0"))
+            ok = p.returncode == 0
+            ver, desc, body = read(os.path.join(jd, "cli_user.dic")) if ok else (0, "", "")
+            events.append({"ev": "fe_build", "run": j["job"], "job": f'{j["job"]}/user', "fe": "cli", "res": "ok" if ok else "err", "body": body, "version": ver, "desc": j["desc"], "hdesc": desc, "exit": p.returncode})
+    # the Python front end
+    po = os.path.join(d, "py_out.json")
+    p = subprocess.run([sys.executable, os.path.join(c19.PYDRV, "c05_build.py"), os.path.join(d, "jobs.json"), po], env=dict(os.environ, PYTHONPATH=c19.PYPKG, RUST_BACKTRACE="0"),
+                       stdout=subprocess.PIPE, stderr=subprocess.PIPE, text=True, timeout=1200)
+    if p.returncode != 0 or not os.path.exists(po):
+        events.append({"ev": "crash", "run": -1, "msg": p.stderr[-300:]})
+    else:
+        descs = {j["job"]: j["desc"] for j in jobs}
+        for e in json.load(open(po)):
+            ver, desc, body = read(e["file"]) if e["res"] == "ok" else (0, "", "")
+            kind = "user_min" if e["kind"] == "user" else e["kind"]      # build_user_dic loads the system dictionary with a minimal configuration
+            events.append({"ev": "fe_build", "run": e["job"], "job": f'{e["job"]}/{kind}', "fe": "python", "res": e["res"], "body": body, "version": ver, "desc": descs[e["job"]], "hdesc": desc, "exit": 0})
+    events.sort(key=lambda e: (e["run"], e["ev"] != "libbuild"))
+    tp = os.path.join(C.WORK, "traces", f"c05_fe_{tier}.ndjson")
+    C.write_ndjson(tp, events)
+    evs, rej = C.validate_trace(out, "Trace_BuildFrontEnds", "Trace_BuildFrontEnds.cfg", tp, "C05/front-ends")
+    fe = [e for e in evs if e["ev"] == "fe_build"]
+    if not any(e["res"] == "err" for e in fe) or not any(e["res"] == "ok" and e["fe"] == "python" and "/user" in e["job"] for e in fe) or not any(e["res"] == "ok" and e["fe"] == "cli" for e in fe):
+        raise C.ToolError("vacuous: the front-end builds never refused a source, or never built a user dictionary with Python / a system dictionary with the CLI")
+    # `sudachi ubuild` loads the system dictionary with the DEFAULT configuration, whose unk.def needs a 5969 x 5969 matrix: on the generated
+    # dictionaries it refuses, exactly like the library loading them that way; its successful path is not exercised here
+    out.cov["cli_ubuild_successes"] = sum(1 for e in fe if e["fe"] == "cli" and "/user" in e["job"] and e["res"] == "ok")
+    out.cov["front_end_builds"] = len(fe)
+    out.cov["evaluations"] += len(fe)
+    if rej == 0:
+        k = next(i for i, e in enumerate(evs) if e["ev"] == "fe_build" and e["res"] == "ok")
+        e2 = json.loads(json.dumps(evs[:k + 1]))
+        e2[k]["body"] = "0" + e2[k]["body"][1:]
+        pp = os.path.join(C.WORK, "traces", "c05_probe_fe.ndjson")
+        C.write_ndjson(pp, e2)
+        m2, t2, _ = C.tlc_trace("Trace_BuildFrontEnds", "Trace_BuildFrontEnds.cfg", pp)
+        if m2 != k:
+            raise C.ToolError("corruption probe: a differing dictionary body was not rejected")
+        out.cov["corruption_probe_front_ends"] = "one digit of a front end's body digest altered: rejected at that event"
+    return rej
+
+
 def run(tier, replay=None):
     if replay:
         C.build_harness()
@@ -94,5 +177,6 @@ def run(tier, replay=None):
         if m2 != 1:
             raise C.ToolError(f"corruption probe: altered key length but TLC matched {m2} of {t2}")
         out.cov["corruption_probe"] = "key length of one read-back word altered by 1: rejected exactly there"
+    frontends_pass(out, tier)
     out.cov["exhaustive"] = True
     return out.finish()
